@@ -6,6 +6,9 @@ LEVEL = 'proof'
 
 
 def run(rep):
+    # goals written in a program reach the database with the variables the source names: one variable per name, `_` always new
+    from . import lexical
+    lexical.visitor_deductive(rep, targets=('yp_prolog_visitor.YPPrologVisitor.visitVARIABLE',))
     enginep.unify_deductive(rep)      # facts are matched by unification: the unify family against su (C02's contracts)
     enginep.engine_deductive(rep, enginep.DB_FUNS + enginep.COPY_FUNS + enginep.BUILTIN_REG + ['engine.YP.query'])
     q = rep.tier == 'quick'
